@@ -162,6 +162,71 @@ def run(chk):
                 if not (ml[0] == "ok" and not compare_resolved(want, ml[1][0])):
                     chk.disagreements += 1
                     chk.unproven("json:correspondence-load", "model loader pipeline differs", dict(rep, model=ml))
+            # "Infinity" in every place a human-written document can carry it: explicit on a migration while the
+            # demes omit their start time, and in defaults.deme / defaults.migration
+            def inf_to_str(d):
+                d = copy.deepcopy(d)
+                for dm in d.get("demes", []):
+                    if isinstance(dm.get("start_time"), float) and math.isinf(dm["start_time"]):
+                        dm["start_time"] = "Infinity"
+                for m in d.get("migrations", []):
+                    if isinstance(m.get("start_time"), float) and math.isinf(m["start_time"]):
+                        m["start_time"] = "Infinity"
+                for k in ("deme", "migration"):
+                    dd = d.get("defaults", {}).get(k, {})
+                    if isinstance(dd.get("start_time"), float) and math.isinf(dd["start_time"]):
+                        dd["start_time"] = "Infinity"
+                return d
+            spell = gen.respell(rng, doc, p=0.8)          # root demes usually lose their start_time
+            roots = [dm["name"] for dm in doc["demes"] if math.isinf(dm["start_time"])]
+            variants_inf = [spell]
+            if len(roots) >= 2:
+                v2 = copy.deepcopy(spell)
+                v2.setdefault("migrations", []).append(dict(source=roots[0], dest=roots[1], start_time=math.inf, end_time=max(
+                    dm["epochs"][-1]["end_time"] for dm in doc["demes"] if dm["name"] in roots[:2]) + 1e-3, rate=1e-6))
+                used = any(m.get("source") == roots[0] and m.get("dest") == roots[1] for m in spell.get("migrations", []))
+                if not used:
+                    variants_inf.append(v2)
+            v3 = copy.deepcopy(spell)
+            v3.setdefault("defaults", {}).setdefault("deme", {})["start_time"] = math.inf
+            for dm in v3["demes"]:
+                if dm["name"] in roots:
+                    dm.pop("start_time", None)
+            variants_inf.append(v3)
+            v4 = copy.deepcopy(variants_inf[-2] if len(variants_inf) > 2 else spell)
+            v4.setdefault("defaults", {}).setdefault("migration", {})["start_time"] = math.inf
+            variants_inf.append(v4)
+            for vi in variants_inf:
+                try:
+                    with warnings.catch_warnings():
+                        warnings.simplefilter("ignore")
+                        ref = demes.Graph.fromdict(copy.deepcopy(vi)).asdict()
+                except Exception:
+                    continue
+                sv = inf_to_str(vi)
+                chk.case([sv, "infinity-spelling"], nontrivial=True)
+                chk.count("infinity_spellings")
+                jt, yt = json.dumps(sv), yaml_text(sv)
+                rep = dict(op="load-infinity-string", document=sv)
+                for lname, fn in L.items():
+                    if lname == "cli":
+                        continue
+                    for fmt, t in (("json", jt), ("yaml", yt)):
+                        if lname == "load_all" and fmt == "json":
+                            continue
+                        try:
+                            got = fn(t, fmt)
+                        except Exception as e:
+                            chk.violation("infinity:loader-rejects:" + lname, "%s (%s) fails on a document that spells infinity as the string: %r" % (lname, fmt, e),
+                                          dict(rep, loader=lname, fmt=fmt))
+                            continue
+                        if compare_resolved(ref, got):
+                            chk.violation("infinity:loader-differs:" + lname, "%s (%s) reads the string form differently from the number" % (lname, fmt),
+                                          dict(rep, loader=lname, fmt=fmt))
+                ml = drv.call("load_post", sv)
+                if not (ml[0] == "ok" and not compare_resolved(ref, ml[1][0])):
+                    chk.disagreements += 1
+                    chk.unproven("infinity:correspondence", "model loader pipeline differs on a string-spelt infinity", dict(rep, model=ml[0]))
             # null injection: every path, one at a time
             hd = g.asdict_simplified() if rng.random() < 0.5 else g.asdict()
             hd = json.loads(json.dumps(demes.loads_asdict(demes.dumps(g, format="json", simplified=False), format="json")
